@@ -1,4 +1,8 @@
+import os
 from plans import step
+
+ROOT = os.path.dirname(os.path.dirname(os.path.dirname(os.path.abspath(__file__))))
+WIDE = os.path.join(ROOT, "corpus", "c14", "wide")
 
 PLAN = dict(
         coq_targets=["Props/C08.vo"],
@@ -8,6 +12,9 @@ PLAN = dict(
             # executable form of C08 on the crate's output: RV code on the ISA model vs the AxCut linear
             # machine, and vs the x86-64 and AArch64 code of the same program on their ISA models
             step("rv-semantics-and-backend-agreement", "codegen-all", "sem-rv", 150, 3200),
+            # the repaired table dispatch beyond the 12-bit ADDI immediate (C14 finding "tag dispatch immediate") on corpus/c14/wide
+            step("tag-dispatch-regression-correspondence", "codegen-all", "codegen-rv", 2, 2, shards_thorough=1, args=["--rv-only", WIDE]),
+            step("tag-dispatch-regression-semantics", "codegen-all", "sem-rv", 2, 2, shards_thorough=1, args=[WIDE]),
         ],
         rule="inputs: every .sc program of /repo/examples, /repo/testsuite and corpus/fun (rv_*.sc are print-free: all five operators, "
              "all twelve comparison forms, lists, closures with 1-3 destructors, constructors with up to 7 fields, sharing/erasing) through "
@@ -39,7 +46,7 @@ PLAN = dict(
                     "class=rv-capacity-panic, and the result equals that of the x86-64 code on Sem/X86Sem.v and of the AArch64 code on Sem/A64Sem.v (class=rv-x86-disagree, "
                     "class=rv-a64-disagree). "
                     "Programs with prints or beyond 14 live variables are SKIPped by the semantic step (print_i64 panics on this back end)."
-                " Round 4: asm_wf and code_small are theorems (C14_rv_compile_asm_wf, C14_rv_compile_code_small): C08_codegen_simulates_wf_partial / C08_codegen_correct_linearized_wf_partial take boolean guards on the program instead (labels_guard, imm_guard_rv = literals 64-bit, at most 512 xtors per type; size_guard); h_frag remains",
+                " Round 4: asm_wf and code_small are theorems (C14_rv_compile_asm_wf, C14_rv_compile_code_small): C08_codegen_simulates_wf_partial / C08_codegen_correct_linearized_wf_partial take boolean guards on the program instead (labels_guard, imm_guard_rv = literals 64-bit, fewer than 2^61 xtors per type; size_guard); the table dispatch beyond the 12-bit ADDI immediate is repaired (LI X1; ADD: C08_rv_add_and_jump_big_sel; regression steps tag-dispatch-regression-* on corpus/c14/wide); h_frag remains",
         assumptions=[
             "the RV64 ISA model Sem/RVSem.v follows the RISC-V unprivileged specification and the assembler manual's pseudo-instruction "
             "expansions; it cannot be validated against hardware or an emulator in this environment (no RISC-V tool chain)",
